@@ -211,14 +211,14 @@ Section StmtRoundTrip.
   Qed.
 
   (* the value of a main pipeline: its lines parse back to it *)
-  Lemma value_ok v rest : wf_value v = true -> ops_ok v = true -> aliased_pipeline v = false ->
+  Lemma value_ok v rest : wf_value v = true -> ops_ok v = true ->
     (exists k r, rest = TNL k :: r /\ match skip_nl r with [] => True | t :: _ => starts_elem T t = false end) ->
     exists g, forall f n, g <= f -> g <= n ->
       exists es, p_lines T (par T f) n (fmt_value_lines F v ++ rest) = Some (es, rest) /\ value_of es = Some v.
   Proof.
-    intros Hw Ho Hk Hb. unfold wf_value in Hw. bsplit.
+    intros Hw Ho Hb. unfold wf_value in Hw. bsplit.
     assert (Hn : is_named v = false) by (apply negb_true_iff; assumption).
-    destruct (is_pipe (match v with EAlias _ k => k | _ => v end)) eqn:Ep.
+    destruct (is_pipe v) eqn:Ep.
     - (* a pipeline of two or more elements, one per line *)
       destruct v as [a|o l r|u x|l r|l|r| |f args|k es|n x|n x|ps ds b]; try discriminate Ep.
       + destruct k; try discriminate Ep. pose proof H0 as Hwv. cbn [wf] in H0. rewrite go_forall in H0. bsplit.
@@ -229,15 +229,13 @@ Section StmtRoundTrip.
         * exact Ho.
         * exists g. intros f n Hf Hn'. exists es. split; [apply Hg; assumption|].
           destruct es as [|a [|b t]]; try discriminate; reflexivity.
-      + destruct x; try discriminate Ep. destruct k; try discriminate Ep. discriminate Hk.
     - (* a lone expression *)
       destruct (lines_ok rest Hb [v]) as [g Hg]; [discriminate | cbn [forallb]; rewrite H, H0; reflexivity | cbn [forallb]; rewrite Ho; reflexivity|].
       exists g. intros f n Hf Hn'. exists [v]. split; [|reflexivity].
       assert (E : fmt_value_lines F v = fmt_lines F [v]).
       { unfold fmt_value_lines. cbn [fmt_lines].
         destruct v as [a|o l r|u x|l r|l|r| |f0 args|k es|n0 x|n0 x|ps ds b]; try reflexivity.
-        - destruct k; try reflexivity. discriminate Ep.
-        - destruct x; try reflexivity. destruct k; try reflexivity. discriminate Ep. }
+        destruct k; try reflexivity. discriminate Ep. }
       rewrite E. apply Hg; assumption.
   Qed.
 
@@ -263,11 +261,6 @@ Section StmtRoundTrip.
     - destruct k; try (apply elem_start; assumption).
       cbn [wf] in H0. rewrite go_forall in H0. cbn [FmtPratt.ops_ok] in Ho. rewrite go_forall in Ho. bsplit.
       apply L; [apply (Hne1 es eq_refl) | | exact Ho].
-      apply forallb_and2; assumption.
-    - destruct x as [a|o l r|u x|l r|l|r| |f args|k es|n2 x|n2 x|ps ds b]; try (apply elem_start; assumption).
-      destruct k; try (apply elem_start; assumption).
-      cbn [wf plain is_alias is_named negb andb] in H0. rewrite go_forall in H0. cbn [FmtPratt.ops_ok] in Ho. rewrite go_forall in Ho. bsplit.
-      apply L; [apply (Hne2 n es eq_refl) | | exact Ho].
       apply forallb_and2; assumption.
   Qed.
 
@@ -468,7 +461,7 @@ Section StmtRoundTrip.
     - (* main pipeline *)
       cbn [known_stmt] in Hk.
       destruct (Hb eq_refl) as [k' [r' [Er Hbd]]]. injection Er as <- <-.
-      destruct (value_ok v (TNL k :: r) ltac:(assumption) ltac:(assumption) Hk) as [g1 Hg1].
+      destruct (value_ok v (TNL k :: r) ltac:(assumption) ltac:(assumption)) as [g1 Hg1].
       { exists k, r. split; [reflexivity|]. destruct (skip_nl r) as [|t0 ?]; [exact I | apply Hbd]. }
       destruct (value_head_wf v ltac:(assumption) ltac:(assumption)) as [t0 [ts0 [Ev Hs0]]].
       destruct (stmt_anns ind anns (fmt_value_lines F v ++ TNL k :: r)) as [g0 Hg0]; try assumption.
@@ -483,7 +476,7 @@ Section StmtRoundTrip.
          match goal with kk : kw |- _ => destruct kk; try reflexivity end; destruct Hbd as [_ []]).
     - (* into *)
       cbn [known_stmt] in Hk.
-      destruct (value_ok v (TNL O :: TKw KInto :: TA (APar n) :: TNL k :: r) ltac:(assumption) ltac:(assumption) Hk) as [g1 Hg1].
+      destruct (value_ok v (TNL O :: TKw KInto :: TA (APar n) :: TNL k :: r) ltac:(assumption) ltac:(assumption)) as [g1 Hg1].
       { eexists _, _. split; [reflexivity|]. reflexivity. }
       destruct (value_head_wf v ltac:(assumption) ltac:(assumption)) as [t0 [ts0 [Ev Hs0]]].
       destruct (stmt_anns ind anns (fmt_value_lines F v ++ TNL O :: TKw KInto :: TA (APar n) :: TNL k :: r)) as [g0 Hg0]; try assumption.
